@@ -10,7 +10,7 @@ use brush_core::verif::SimChild;
 
 use crate::world;
 
-pub const PROGRAMS: &[&str] = &["xseq", "xcat", "xhead", "xexit", "xsleep", "xtrue", "xfalse"];
+pub const PROGRAMS: &[&str] = &["xseq", "xcat", "xhead", "xexit", "xsig", "xsleep", "xtrue", "xfalse"];
 
 const SIGPIPE_RAW: i32 = 13;
 
@@ -49,6 +49,16 @@ fn behave(name: &str, args: &[String], mut stdin: Option<OpenFile>, mut stdout: 
                 }
             }
             exit_raw(num(args, 0, 0) as u8)
+        }
+        "xsig" => {
+            // dies of signal N (after optionally draining its input)
+            if args.get(1).is_some_and(|s| s == "drain") {
+                if let Some(i) = stdin.as_mut() {
+                    let mut buf = [0u8; 256];
+                    while matches!(i.read(&mut buf), Ok(n) if n > 0) {}
+                }
+            }
+            (num(args, 0, 15) as i32) & 0x7f
         }
         "xseq" => {
             let n = num(args, 0, 1);
